@@ -86,6 +86,8 @@ def run(ctx):
                    'unknown spec of their own kind', 3)
     ctx.rule('M6', 'test_for_specials scans category_list in order, replaces the best match only '
                    'by a strictly longer one, and never exits early', 1)
+    ctx.rule('M2d', 'positions passed to list.insert() for the category list are never negative (insert(-1) is '
+                    'not append)', 2)
     ctx.rule('M9', 'closure under derivation: a derived database is built only through operations that accept '
                    'every category name the source can hold (automatically generated names included)', 1)
     ctx.rule('M8', 'an attribute computed from other attributes of the database and remembered (a derived '
@@ -249,6 +251,38 @@ def run(ctx):
     if tfs is None:
         raise AnalysisError('anchor vanished: LatexContextDb.test_for_specials')
     _check_test_for_specials(ctx, m, tfs)
+
+    # ---------------------------------------------------------------- M2d
+    # positions handed to list.insert() for the category list are 0, an index(), index()+1 or
+    # len(list): a negative index does not mean "at the end" for insert()
+    acf = meths.get('add_context_category')
+    idx_names = set()
+    for c_ in ast.walk(acf):
+        if isinstance(c_, ast.Call) and call_name(c_) == 'insert' and c_.args:
+            a0 = c_.args[0]
+            if isinstance(a0, ast.Name):
+                idx_names.add(a0.id)
+            elif isinstance(a0, ast.Constant) or isinstance(a0, ast.UnaryOp):
+                idx_names.add(None)
+                v_ = a0
+                neg = isinstance(v_, ast.UnaryOp) and isinstance(v_.op, ast.USub)
+                ctx.decide('M2d', not neg, m, c_, 'literal insert position %s' % unparse(v_),
+                           'list.insert(%s, ...): a negative position inserts BEFORE the last element, not at '
+                           'the end' % unparse(v_), construct='add_context_category: ' + short(c_, 60))
+    n_idx = 0
+    for st_ in ast.walk(acf):
+        if isinstance(st_, ast.Assign) and any(isinstance(t_, ast.Name) and t_.id in idx_names for t_ in st_.targets):
+            for cs_, e_ in __import__('pxv.symex', fromlist=['x'])._split_ifexp(st_.value):
+                n_idx += 1
+                neg = (isinstance(e_, ast.UnaryOp) and isinstance(e_.op, ast.USub)) or \
+                    (isinstance(e_, ast.Constant) and isinstance(e_.value, int) and e_.value < 0)
+                ctx.decide('M2d', not neg, m, st_, 'insert position %s' % short(e_, 50),
+                           'the insert position is set to %s: list.insert() with a negative position inserts '
+                           'BEFORE the last element, so insert_after=<unknown name> places the new category in '
+                           'front of the last one and shadows its definitions (documented: at the end)'
+                           % unparse(e_), construct='add_context_category: ' + short(st_, 60))
+    if not n_idx and None not in idx_names:
+        ctx.unknown('M2d', m, acf, 'no insert position found', construct='add_context_category: insert positions')
 
     # ---------------------------------------------------------------- M8
     _derived_cache_invalidation(ctx, m, meths)
@@ -809,14 +843,35 @@ _ADD_FN = [None]
 
 
 def _check_filtered(ctx, m, fn):
-    loops = [n for n in iter_own(fn) if isinstance(n, ast.For)]
-    loop = None
-    for l in loops:
-        if is_self_attr(l.iter, 'category_list'):
-            loop = l
-    if loop is None:
-        ctx.unknown('M4b', m, fn, 'no loop directly over self.category_list in filtered_context')
+    loops = [n for n in iter_own(fn) if isinstance(n, ast.For) and any(
+        isinstance(c_, ast.Call) and call_name(c_) == 'add_context_category' for c_ in ast.walk(n))]
+    if len(loops) != 1:
+        ctx.unknown('M4b', m, fn, 'no single loop re-adding the categories in filtered_context')
         return
+    loop = loops[0]
+    if not is_self_attr(loop.iter, 'category_list'):
+        # what the loop iterates over, per structural path, with locals substituted
+        from .. import symex
+        try:
+            its = symex.Walker(is_sink=lambda n: n is loop.iter, sink_types=(type(loop.iter),)).run(fn)
+        except symex.TooManyPaths:
+            its = []
+        bad = None
+        for cs in its:
+            v = cs.sub
+            src = v
+            if isinstance(v, (ast.ListComp, ast.GeneratorExp)) and v.generators:
+                src = v.generators[0].iter
+            if not is_self_attr(src, 'category_list'):
+                bad = cs
+        if bad is not None or not its:
+            ctx.refuted('M4b', m, loop, 'on the path [%s] the categories of the filtered database are taken in the '
+                        'order of %s, not of self.category_list: the derived database reports and searches its '
+                        'categories in the caller\'s order, so a name defined in two kept categories resolves '
+                        'differently than in the database it came from'
+                        % (' & '.join(bad.cond_src())[-80:] if bad else '', short(bad.sub, 60) if bad else short(loop.iter)),
+                        construct='filtered_context: iteration order')
+            return
     cat = loop.target.id if isinstance(loop.target, ast.Name) else None
     ctx.holds('M4b', m, loop.iter, 'iterates self.category_list in stored order',
               construct='filtered_context: for %s in %s' % (cat, short(loop.iter)))
@@ -928,9 +983,70 @@ def _check_lookup(ctx, m, fn, kind, unk):
         ctx.refuted('M5', m, fn, 'no unknown-spec fallback', construct=fn.name + ': fallback')
 
 
+def _collect_and_pick(ctx, m, fn):
+    """second shape of test_for_specials: all matches are collected in lookup order by one
+    comprehension over self.category_list, then one is picked.  True if handled."""
+    comps = [c for c in ast.walk(fn) if isinstance(c, (ast.ListComp, ast.GeneratorExp))
+             and c.generators and is_self_attr(c.generators[0].iter, 'category_list')]
+    if len(comps) != 1:
+        return False
+    comp = comps[0]
+    asg = getattr(comp, '_parent', None)
+    while asg is not None and not isinstance(asg, ast.Assign):
+        asg = getattr(asg, '_parent', None)
+    if asg is None or not isinstance(asg.targets[0], ast.Name):
+        return False
+    lst = asg.targets[0].id
+    sw = any(isinstance(c, ast.Call) and call_name(c) == 'startswith' and len(c.args) == 2
+             and unparse(call_recv(c)) == fn.args.args[1].arg and unparse(c.args[1]) == fn.args.args[2].arg
+             for g in comp.generators for i in g.ifs for c in ast.walk(i))
+    ctx.decide('M6', sw, m, comp, 'matches collected in category order with s.startswith(chars, pos)',
+               'the collected candidates are not filtered by s.startswith(chars, pos)',
+               construct='test_for_specials: candidates')
+    # how the winner is picked: among the longest, the FIRST in lookup order must win
+    verdict, how = None, ''
+    for n in ast.walk(fn):
+        if isinstance(n, ast.Call) and isinstance(n.func, ast.Name) and n.func.id == 'max' and n.args \
+                and unparse(n.args[0]) == lst:
+            verdict, how = True, 'max() returns the first of several maximal candidates'
+        if isinstance(n, ast.Call) and isinstance(n.func, ast.Name) and n.func.id == 'min' and n.args \
+                and unparse(n.args[0]) == lst:
+            verdict, how = False, 'min() picks a shortest match'
+        if isinstance(n, ast.Call) and call_name(n) in ('sort', 'sorted') and (
+                (call_recv(n) is not None and unparse(call_recv(n)) == lst) or
+                (n.args and unparse(n.args[0]) == lst)):
+            rev = kwarg(n, 'reverse')
+            desc = isinstance(rev, ast.Constant) and rev.value is True
+            # which end is taken afterwards
+            idx = [x for x in ast.walk(fn) if isinstance(x, ast.Subscript) and isinstance(x.ctx, ast.Load)
+                   and not isinstance(x.slice, ast.Slice) and unparse(x.value) in (lst, unparse(n))]
+            takes_first = any(unparse(x.slice) == '0' for x in idx)
+            takes_last = any(unparse(x.slice).replace(' ', '') in ('-1', 'len(%s)-1' % lst) for x in idx)
+            if desc and takes_first:
+                verdict, how = True, 'stable descending sort, first element'
+            elif (not desc) and takes_last:
+                verdict, how = False, ('a stable ascending sort followed by taking the LAST element picks, among '
+                                       'matches of equal length, the one of the lowest-priority category')
+            elif (not desc) and takes_first:
+                verdict, how = False, 'ascending sort, first element: the shortest match wins'
+    if verdict is None:
+        ctx.unknown('M6', m, fn, 'selection among the collected matches not recognised',
+                    construct='test_for_specials: selection')
+    else:
+        ctx.decide('M6', verdict, m, fn, 'longest match, first in lookup order among equals (%s)' % how,
+                   'the winner among the collected matches is chosen wrongly: %s, so test_for_specials() '
+                   'disagrees with get_specials_spec() for a specials sequence re-declared in an earlier '
+                   'category' % how, construct='test_for_specials: selection')
+    ctx.holds('M6', m, fn, 'no best-length variable (collect-and-pick form)',
+              construct='test_for_specials: initial best length', trivial=True)
+    return True
+
+
 def _check_test_for_specials(ctx, m, fn):
     outer = [n for n in fn.body if isinstance(n, ast.For)]
     if len(outer) != 1 or not is_self_attr(outer[0].iter, 'category_list'):
+        if _collect_and_pick(ctx, m, fn):
+            return
         ctx.unknown('M6', m, fn, 'outer loop is not directly over self.category_list')
         return
     o = outer[0]
